@@ -386,6 +386,11 @@ func FillRequired(m protoreflect.Message) {
 	}
 }
 
+// SetZero sets a singular scalar field explicitly to the zero / empty value of its kind (present on the wire in proto2).
+func SetZero(m protoreflect.Message, fd protoreflect.FieldDescriptor) {
+	m.Set(fd, scalarDomain0(fd, false)[0].v)
+}
+
 // SetSimple sets a singular scalar field to the second value of its domain.
 func SetSimple(m protoreflect.Message, fd protoreflect.FieldDescriptor) {
 	m.Set(fd, scalarDomain(fd, false)[1].v)
